@@ -95,7 +95,7 @@ def finish(prop, tier, seed, info, reports, dead, wall, replaying=False):
         'wall_s': round(wall, 2),
         'violations': len(new),
     }
-    if not replaying:
+    if not replaying and not os.environ.get('VERIF_NO_EVIDENCE'):
         os.makedirs(os.path.join(VERIF, 'evidence'), exist_ok=True)
         with open(os.path.join(VERIF, 'evidence', '%s.json' % prop),
                   'w') as f:
